@@ -243,6 +243,40 @@ CLAIMED = {
                 "library; MPI-IO is assumed to deliver the requested counts.",
         "design_ref": "DESIGN.md section 3 / C06",
     },
+    "C03": {
+        "technique": "effect summaries over clang CFGs: per format version, the set of token sequences (4/8-byte words, "
+                     "byte runs, nested productions, loops) each hdr_put_NC_* function writes on its successful paths, "
+                     "compared with the specification grammar written down independently and with the additive terms of "
+                     "the hdr_len_NC_* size functions; constant-table and decision-atom path rules",
+        "text": "Decides the grammar clause of 'files conform to CDF-1/2/5': for every header production (name, dim, "
+                "dim_list, attr, att_list, var, var_list, header) and each version the encoder writes exactly the "
+                "fields the specification lists, in order, with NON_NEG widths 4/4/8 and OFFSET widths 4/8/8; the "
+                "size function (reported header size, buffer size, start of data) adds up exactly those fields with "
+                "the widths handed to the right parameters; list tags / ABSENT / magic constants and the vsize "
+                "saturation constant are the specified ones; a clobbering create unlinks or truncates an existing "
+                "file before opening. Which values go into the fields, the data areas and the layout invariants "
+                "under arbitrary schemas are NOT decided here (limits: C18; moves: C06; data-mode rewrite: C07).",
+        "note": "Version branches are decided per version; error-status branches take the success side; RUNs and loops may "
+                "be empty. Byte-level padding arithmetic is not part of the token abstraction.",
+        "design_ref": "DESIGN.md section 3 / C03, rule R7",
+    },
+    "C04": {
+        "technique": "the same CFG effect summaries for the hdr_get_NC_* decoder compared with the specification grammar "
+                     "and with the encoder's; dominance rule for window refills; must-pass-through rule for the vsize "
+                     "recomputation; last-assignment typestate for begin_rec/begin_var; bounded evaluation of hdr_fetch's "
+                     "integer slice",
+        "text": "Decides structural clauses of 'any valid file is read back': the decoder consumes exactly the "
+                "specification's fields per production and version (so it does not depend on the writer's dialect), "
+                "and agrees with the encoder; every fixed-width read from the sliding header window is preceded by a "
+                "refill test of at least that width; hdr_fetch keeps the unread tail and continues at the following "
+                "file offset for every fill level of a 40-byte window (bounded); vsize from the file is recomputed "
+                "from the dimensions on every successful open path; begin_rec / begin_var are taken from the file's "
+                "own offsets (gaps honoured). Equality of all inquiry results and data with the encoded content is "
+                "NOT decided.",
+        "note": "The hint nc_header_read_chunk_size is inert in this snapshot (parsed into a local, never stored), so chunk "
+                "sizes other than the default are unreachable through the API; the rules are independent of the chunk size.",
+        "design_ref": "DESIGN.md section 3 / C04, rules R7, R9a, R8.fetch",
+    },
 }
 
 NA_REASON = {
